@@ -756,3 +756,131 @@ func TestC17TransportErrorPath(t *testing.T) {
 		})
 	})
 }
+
+// TestC17ResizeUnderLoad: the receive queue of a socket is full (its application is not reading,
+// the pipe readers sit on the next message) when READQ-LEN is changed.  Whatever the resize does
+// with queued messages — dropping them is allowed — every message that is afterwards handed to the
+// application is the application's alone: distinct objects, content as sent, no poison, and the
+// ledger stays clean while the application holds them across further traffic.
+func TestC17ResizeUnderLoad(t *testing.T) {
+	stats.ScaledChecks(3, 5, func() {
+		rapid.Check(t, func(t *rapid.T) {
+			pair := rapid.SampledFrom([][2]string{{"push", "pull"}, {"xpush", "xpull"}, {"pair", "pair"}, {"xpair", "xpair"}, {"pub", "sub"}, {"bus", "bus"}, {"xbus", "xbus"}, {"star", "star"}, {"pair1", "pair1"}}).Draw(t, "pattern")
+			tr := rapid.SampledFrom([]string{"inproc", "inproc", "tcp", "ipc"}).Draw(t, "transport")
+			q0 := rapid.SampledFrom([]int{1, 2, 4}).Draw(t, "readq")
+			q1 := rapid.SampledFrom([]int{1, 2, 3, 8, 64}).Draw(t, "newReadq")
+			resizes := rapid.IntRange(1, 3).Draw(t, "resizes")
+			sz := rapid.SampledFrom([]int{9, 100, 1000, 5000}).Draw(t, "size")
+			nmsg := rapid.IntRange(12, 40).Draw(t, "nmsg")
+			doc := map[string]interface{}{"test": "TestC17ResizeUnderLoad", "pattern": pair[0] + ">" + pair[1], "transport": tr, "readq": q0, "new_readq": q1, "resizes": resizes, "size": sz, "nmsg": nmsg, "rseed": os.Getenv("VERIF_RSEED")}
+			_ = mangos.VerifLedgerReport()
+			S, R := fixture.New(pair[0]), fixture.New(pair[1])
+			defer S.Close()
+			defer R.Close()
+			if pair[1] == "sub" {
+				_ = R.SetOption(mangos.OptionSubscribe, "")
+			}
+			if err := R.SetOption(mangos.OptionReadQLen, q0); err != nil {
+				t.Fatalf("harness: %v", err)
+			}
+			_ = S.SetOption(mangos.OptionSendDeadline, 10*time.Millisecond)
+			if _, err := fixture.Connect(R, S, tr); err != nil {
+				t.Fatalf("harness: %v", err)
+			}
+			mk := func(i int) []byte {
+				b := fixture.Payload(uint64(1000+i), sz)
+				copy(b, fmt.Sprintf("#%04d#", i))
+				return b
+			}
+			send := func(i int) {
+				m := mangos.NewMessage(sz)
+				m.Body = append(m.Body, mk(i)...)
+				if h := rawHdr(pair[0]); h != nil {
+					m.Header = append(m.Header, h...)
+				}
+				if err := S.SendMsg(m); err != nil {
+					m.Free()
+				}
+			}
+			sent := 0
+			for ; sent < nmsg/2; sent++ {
+				send(sent)
+			}
+			time.Sleep(5 * time.Millisecond) // the receive queue is full, readers hold the next message
+			for k := 0; k < resizes; k++ {
+				v := q1
+				if k%2 == 1 {
+					v = q0
+				}
+				if err := R.SetOption(mangos.OptionReadQLen, v); err != nil {
+					stats.Fail(t, "C17:resize-refused:"+pair[1], doc, "%s: SetOption(READQ-LEN,%d) while connected: %v", pair[1], v, err)
+					return
+				}
+				for j := 0; j < 3 && sent < nmsg; j++ {
+					send(sent)
+					sent++
+				}
+			}
+			for ; sent < nmsg; sent++ {
+				send(sent)
+			}
+			// drain, keeping everything
+			_ = R.SetOption(mangos.OptionRecvDeadline, 60*time.Millisecond)
+			var kept []*mangos.Message
+			var snaps [][]byte
+			seenObj := map[*mangos.Message]int{}
+			for {
+				m, err := R.RecvMsg()
+				if err != nil {
+					break
+				}
+				if j, dup := seenObj[m]; dup {
+					stats.Fail(t, "C17:same-object-twice:"+pair[1], doc, "%s over %s: RecvMsg handed out a message object the application already holds (receive %d and %d) after READQ-LEN changes with a full queue", pair[1], tr, j, len(kept))
+					return
+				}
+				seenObj[m] = len(kept)
+				kept = append(kept, m)
+				snaps = append(snaps, append([]byte(nil), m.Body...))
+				// more traffic while we hold them
+				if sent < nmsg+10 {
+					send(sent)
+					sent++
+				}
+			}
+			for i, m := range kept {
+				var n int
+				if _, err := fmt.Sscanf(string(snaps[i][:6]), "#%04d#", &n); err != nil || !bytes.Equal(snaps[i], mk(n)) {
+					key := "wrong-content"
+					if poisoned(snaps[i]) {
+						key = "poison-delivered"
+					}
+					stats.Fail(t, "C17:resize-"+key+":"+pair[1], doc, "%s over %s: message %d received after READQ-LEN changes does not have the content of any message sent (starts %q)", pair[1], tr, i, trunc(snaps[i]))
+					return
+				}
+				if !bytes.Equal(m.Body, snaps[i]) {
+					stats.Fail(t, "C17:resize-held-message-changed:"+pair[1], doc, "%s over %s: message %d (sent as #%d) changed while the application held it: further traffic must not touch it", pair[1], tr, i, n)
+					return
+				}
+			}
+			for _, m := range kept {
+				m.Free()
+			}
+			if !checkLedger(t, doc, fmt.Sprintf("%s over %s, READQ-LEN %d->%d changed %d time(s) with a full queue", pair[1], tr, q0, q1, resizes)) {
+				return
+			}
+			stats.Eval()
+			stats.Class("resize_under_load:" + pair[1])
+			if len(kept) > 0 {
+				stats.NonTrivial(fmt.Sprintf("RZ|%s|%s|%d|%d|%d|%d|%d", pair[1], tr, q0, q1, resizes, sz, nmsg))
+			}
+			stats.Sample(doc)
+		})
+	})
+}
+
+func trunc(b []byte) []byte {
+	if len(b) > 24 {
+		return b[:24]
+	}
+	return b
+}
